@@ -161,6 +161,23 @@ class Walker:
         elif h == "bin" and t[1] in BINCMP:
             op, a, b = BINCMP[t[1]], t[2], t[3]
         if op is not None:
+            # ordering of two Options (None < Some(_); Some(x) vs Some(y) by payload)
+            sa, sb = self._opt_side(a), self._opt_side(b)
+            if sa is not None and sb is not None and sa[0].name not in killed and sb[0].name not in killed:
+                va, vb = val[sa[0].name], val[sb[0].name]
+                if va == "None" and vb == "None":
+                    return cmp_truth(op, "=")
+                if va == "None":
+                    return cmp_truth(op, "<")
+                if vb == "None":
+                    return cmp_truth(op, ">")
+                at2, ori2 = self.atom_cmp(sa[1], sb[1])
+                if at2 is not None and at2.name not in killed:
+                    v = val[at2.name]
+                    if ori2 < 0:
+                        v = flip(v)
+                    return cmp_truth(op, v)
+                return None
             at, ori = self.atom_cmp(a, b)
             if at is not None and at.name not in killed:
                 v = val[at.name]
@@ -229,6 +246,20 @@ class Walker:
             body = self.inl.inline_fn(q, list(args))
             if body is not None and body != t:
                 return self.truth(body, val, killed, depth + 1)
+        return None
+
+    def _opt_side(self, t):
+        """(opt atom, payload term) for an Option-valued comparison operand: X or X.map(closure)"""
+        if t[0] == "call" and t[1] == "std::option::Option::map" and len(t[2]) == 2:
+            at = self.atom_of(t[2][0], ("opt",))
+            if at is not None and t[2][1][0] == "closure":
+                body = self.inl.inline_closure(t[2][1], [some_payload(t[2][0])])
+                if body is not None:
+                    return at, body
+            return None
+        at = self.atom_of(t, ("opt",))
+        if at is not None:
+            return at, some_payload(t)
         return None
 
     def edge_filter(self, bb, val, killed):
